@@ -5,6 +5,7 @@ PROPS = {
     "C13": [("u_discover", "quick"), ("u_topo", "quick"), ("u_diagord", "quick"), ("u_link", "quick")],
     "C08": [("u_capt", "quick"), ("u_closenv", "quick")],
     "C05": [("u_scope", "quick")],
+    "C06": [("u_rows", "quick")],
     "C17": [("u_dynvis", "quick"), ("u_ceffect", "quick")],
     "C16": [("u_pkgallow", "quick"), ("u_orphan", "quick"), ("u_topo", "quick"), ("u_depenv", "quick")],
     "C10": [("u_intlit", "quick"), ("u_dcefx", "quick")],
